@@ -74,6 +74,8 @@ FORMS = [
     ('date', {'form': 'date', 'v': 43831}, 'date:43831'),
     # a date-formatted number below 1 is a time of day: still a number
     ('time', {'form': 'date', 'v': 0.5}, 'num:0.5'),
+    # a date with a time of day keeps both
+    ('datetime', {'form': 'date', 'v': 43831.75}, 'date:43831+64800s'),
     ('e', {'form': 'e', 'v': '#N/A'}, 'err:#N/A'),
     # text that begins with "=" (typed as '=E1*2): a constant, not a formula
     ('s-eq', {'form': 's', 'v': '=E1*2'}, 'text:=E1*2'),
@@ -99,6 +101,8 @@ FORMS = [
                 'style': 1}, 'date:43831'),
     ('f-time', {'form': 'f', 'f': 'E1/8', 'ct': 'n', 'cv': 0.25,
                 'style': 1}, 'num:0.25'),
+    ('f-datetime', {'form': 'f', 'f': 'E1+43829', 'ct': 'n', 'cv': 43831.75,
+                    'style': 1}, 'date:43831+64800s'),
     ('f-e', {'form': 'f', 'f': 'E1/0', 'ct': 'e', 'cv': '#DIV/0!'},
      'err:#DIV/0!'),
 ]
@@ -141,7 +145,8 @@ EPOCH_SHIFT = 1462
 
 def shifted(want, date1904):
     if date1904 and want and want.startswith('date:'):
-        return 'date:%d' % (int(want[5:]) + EPOCH_SHIFT)
+        day, plus, rest = want[5:].partition('+')
+        return 'date:%d%s%s' % (int(day) + EPOCH_SHIFT, plus, rest)
     return want
 
 
